@@ -69,7 +69,51 @@ for _cls, _ms in _TERM_API.items():
         REGISTRY[_n] = (_cls + "::" + _m, "%s::%s() is %s" % (_cls.split("::")[-1], _m, _what), {})
         TERMAPI.append(_n)
 
+REGISTRY["char_names_ctor"] = (U + "char_names::char_names", "name of byte i: the character itself for 33..126, else "
+                               "\\x followed by the two hex digits d[i / 16], d[i % 16] (distinct bytes get distinct "
+                               "names: they are the ids of char terms)", {"nparams": 0})
+REGISTRY["char_names_name"] = (U + "char_names::name", "the table entry of the byte taken as unsigned", {})
+TERMAPI += ["char_names_ctor", "char_names_name"]
+
+_DIAG = {
+    "write_state_diag_str": "per state: its items, then for every nonterminal column the goto, for every term column the "
+                            "action with the rule numbers as written and the conflict notes",
+    "write_rule_diag_str": "left side, ' <- ', the right side's symbols separated by blanks (nothing for an empty rule)",
+    "write_situation_diag_str": "the rule with the dot at `after` and the lookahead",
+    "find_reduction_rule": "the rule number (as written) of the reduce item of the state for that lookahead",
+    "get_symbol_name": "term_names[idx] for a term, nterm_names[idx] for a nonterminal",
+}
+DIAG = []
+for _m, _what in _DIAG.items():
+    REGISTRY["diag_" + _m] = ("ctpg::parser::" + _m, _what, {"unroll": 1 if _m == "write_state_diag_str" else 2})
+    DIAG.append("diag_" + _m)
+
+# ---------------------------------------------------------------- automaton construction and matching
+# No documented contract beyond the pattern syntax: the reference is the construction that the PRIO / CAP-D / MATCH rules
+# were derived from and that the repaired tree uses. A behaviour-changing edit here (including a repair of the
+# known merge defects of C03) is reported and needs a review and a re-freeze; refactorings are not.
+_DFAB = {
+    "merge": "folds state `from` into state `to`: union of the transitions (recursively merging where both have one), "
+             "accepting flag and priority slots appended, with the merged_from memo against cycles",
+    "mark_end_state": "an accepting state records the term in its own slot list",
+    "mark_end_states": "marks every accepting state of the slice with the term",
+    "primary_char": "two states: start --c--> accepting",
+    "primary_subset": "two states: start --(every byte of the set)--> accepting",
+    "star": "accepting states loop back to the start's transitions; the start accepts",
+    "plus": "accepting states loop back to the start's transitions",
+    "opt": "the start accepts",
+    "cat": "accepting states of s1 take over s2's start (merged), s1's accepting flags cleared",
+    "alt": "s2's start merged into s1's start",
+    "rep": "n copies concatenated (n == 0: the slice itself)",
+}
+DFAB = []
+for _m, _what in _DFAB.items():
+    REGISTRY["dfab_" + _m] = (R + "dfa_builder::" + _m, _what, {})
+    DFAB.append("dfab_" + _m)
+
 GROUPS = {
+    "DFAB": DFAB,
+    "DIAG": DIAG,
     "TERMAPI": TERMAPI,
     "REGEXFE": ["regex_char", "hex_digits_to_char", "hex_digit_lambda", "string_view_to_subset", "char_subset_add_range",
                 "regex_lexer_match", "regex_lexer_match_primary", "regex_lexer_match_range", "regex_lexer_match_range_item",
